@@ -245,7 +245,7 @@ def run(prog: Program, chk: Check):
     core = prog.module(CORE)
     sizes = sorted({0, 1, 2, KS - 1, KS, KS + 1, 2 * KS - 1, 2 * KS, 2 * KS + 1, 3 * KS + 5})
     listener = Obj(prog.cls(MGR, "Module"), "Module")
-    mt_traffic, all_types = consts.get("MT_MESSAGE_TRAFFIC"), prog.module_constants("pyrtma.message").get("ALL_MESSAGE_TYPES", prog.module_constants(MGR).get("ALL_MESSAGE_TYPES"))
+    mt_traffic, all_types = consts.get("MT_MESSAGE_TRAFFIC"), consts.get("ALL_MESSAGE_TYPES")
 
     def tables(listeners: bool):
         from collections import defaultdict as dd
